@@ -81,3 +81,4 @@ META.update({
 
 from . import c06  # noqa
 from . import c12  # noqa
+from . import c01  # noqa
